@@ -11,6 +11,21 @@ let z_of_int (i : int) : z = if i = 0 then Z0 else if i > 0 then Zpos (pos_of_in
 let rec int_of_pos = function XH -> 1 | XI p -> 2 * int_of_pos p + 1 | XO p -> 2 * int_of_pos p
 let int_of_n = function N0 -> 0 | Npos p -> int_of_pos p
 
+(* int64 atoms (sizes go up to the ends of int64, beyond OCaml's 63-bit int) *)
+let z_of_atom = function
+  | A a ->
+    let v = Int64.of_string a in
+    if v = 0L then Z0
+    else
+      let rec pos (u : Int64.t) : positive =   (* u > 0, read as unsigned *)
+        if u = 1L then XH
+        else if Int64.logand u 1L = 1L then XI (pos (Int64.shift_right_logical u 1))
+        else XO (pos (Int64.shift_right_logical u 1)) in
+      if Int64.compare v 0L > 0 then Zpos (pos v) else Zneg (pos (Int64.neg v))   (* neg min_int = 2^63 unsigned *)
+  | L _ -> raise (Parse_error "expected int64")
+let rec float_of_pos = function XH -> 1.0 | XI p -> 2.0 *. float_of_pos p +. 1.0 | XO p -> 2.0 *. float_of_pos p
+let show_z = function Z0 -> "0" | Zpos p -> Printf.sprintf "%.0f" (float_of_pos p) | Zneg p -> Printf.sprintf "-%.0f" (float_of_pos p)
+
 let instant_of s ns = { t_sec = z_of_int (int_ s); t_ns = n_of_int (int_ ns) }
 
 (* bytes of a Create case: a hex atom, (p start len) = the fixed position-dependent
@@ -24,11 +39,11 @@ let rec bytes_ = function
 
 let fi_of = function
   | L [A "fi"; p; size; sec; ns; d; mime; etag] ->
-    { i_path = str p; i_size = n_of_int (int_ size); i_mod = instant_of sec ns; i_dir = bool_ d;
+    { i_path = str p; i_size = z_of_atom size; i_mod = instant_of sec ns; i_dir = bool_ d;
       i_mime = str mime; i_etag = str etag }
   | L [A "fi"; p; size; sec; ns; d; mime; etag; _zone] ->
     (* the zone the backend's time.Time was expressed in: the same instant *)
-    { i_path = str p; i_size = n_of_int (int_ size); i_mod = instant_of sec ns; i_dir = bool_ d;
+    { i_path = str p; i_size = z_of_atom size; i_mod = instant_of sec ns; i_dir = bool_ d;
       i_mime = str mime; i_etag = str etag }
   | _ -> raise (Parse_error "fi")
 
@@ -124,7 +139,7 @@ let dmeta_of = function
   | _ -> raise (Parse_error "dmeta")
 
 let show_info (i : info) =
-  Printf.sprintf "{%s size=%d dir=%b mime=%s etag=%s}" (show_chars i.i_path) (int_of_n i.i_size) i.i_dir (show_chars i.i_mime) (show_chars i.i_etag)
+  Printf.sprintf "{%s size=%s dir=%b mime=%s etag=%s}" (show_chars i.i_path) (show_z i.i_size) i.i_dir (show_chars i.i_mime) (show_chars i.i_etag)
 let show_out = function
   | OInfo i -> "info" ^ show_info i
   | OList l -> "list[" ^ String.concat "; " (List.map show_info l) ^ "]"
@@ -141,6 +156,28 @@ let show_call = function
   | CCopy (n, d, nr, no) -> Printf.sprintf "copy %s %s norec=%b noow=%b" (show_chars n) (show_chars d) nr no
   | CMove (n, d, no) -> Printf.sprintf "move %s %s noow=%b" (show_chars n) (show_chars d) no
 
+(* a scripted answer of another server, as the model's [hresp] *)
+let pname_of = function "rt" -> Some RT | "clen" -> Some CLEN | "lmod" -> Some LMOD | "ctype" -> Some CTYPE | "etag" -> Some ETAG | _ -> None
+let pvalue_of = function
+  | L [A "coll"] -> PResType true
+  | L [A "nocoll"] -> PResType false
+  | L [A "t"; s] -> PText (str s)
+  | L [A "e"] -> PEmpty
+  | _ -> raise (Parse_error "pvalue")
+let code_of = function A "-" -> N0 | c -> n_of_int (int_ c)
+let foreign_resp = function
+  | L (A "r" :: L (A "h" :: hs) :: L [A "st"; st] :: pss) ->
+    { wr_hrefs = List.map str hs;
+      wr_status = (match st with A "-" -> None | c -> Some (n_of_int (int_ c)));
+      wr_propstats = List.map (function
+        | L (A "ps" :: code :: props) ->
+          { ps_code = code_of code;
+            ps_props = List.filter_map (function
+              | L [A name; v] -> (match pname_of name with Some n -> Some (n, pvalue_of v) | None -> None)
+              | _ -> raise (Parse_error "prop")) props }
+        | _ -> raise (Parse_error "ps")) pss }
+  | _ -> raise (Parse_error "foreign response")
+
 let op_name = function
   | OpStat _ -> "stat" | OpReadDir (_, r) -> if r then "readdir_rec" else "readdir" | OpOpen _ -> "open"
   | OpCreate _ -> "create" | OpRemoveAll _ -> "rm" | OpMkdir _ -> "mkdir" | OpCopy _ -> "copy" | OpMove _ -> "move"
@@ -152,9 +189,13 @@ let () =
        L [A "drv"; L [A "ep"; epp]; L (A "answers" :: answers); ext; L [A "tree"; tree]; L (A "dmeta" :: dm)];
        L [A "obs"; L (A "calls" :: calls); out; L [A "stored"; stored]]] ->
       let o = op_of op in
+      let foreign = (match backend with
+        | L (A "foreign" :: status :: resps) ->
+          Some { h_status = n_of_int (int_ status); h_body = []; h_ms = List.map foreign_resp resps }
+        | _ -> None) in
       let is_local = (match backend with L (A "local" :: _) -> true | _ -> false) in
       bump ("op_" ^ op_name o);
-      bump (if is_local then "backend_local" else "backend_mem");
+      bump (if is_local then "backend_local" else if foreign <> None then "backend_foreign" else "backend_mem");
       bump ("transport_" ^ tr);
       let tabs = tables_of ext in
       let x = ext_of_tables tabs in
@@ -172,7 +213,19 @@ let () =
        | None -> bump "obs_panic"; Some "agree=0 spec=0 kf=- :: implementation panicked"
        | Some out ->
          bump (match out with OErr _ -> "out_err" | _ -> "out_ok");
-         if calls <> [] then note_nontrivial (show (List.hd sx));
+         if calls <> [] || foreign <> None then note_nontrivial (show (List.hd sx));
+         match foreign with
+         | Some resp ->
+           (* only the client half: the model's reading of the scripted answer; the
+              property says nothing about other servers' answers (spec = agree) *)
+           let list_op = (match o with OpReadDir _ -> true | _ -> false) in
+           let agree = foreign_agrees x list_op resp out && codecs_agree in
+           bump ((if list_op then "foreign_list_" else "foreign_stat_") ^ (match out with OErr _ -> "err" | _ -> "ok"));
+           if agree then None else
+           verdict ~agree ~spec:true ~kf:"-"
+             ~detail:(Printf.sprintf "model reads: %s%s" (show_out (if list_op then read_list x resp else read_stat x resp))
+                        (if codecs_agree then "" else " (a codec model of C16 differs from the Go codec on a text of this answer)"))
+         | None ->
          let st = (match stored with A "-" -> None | b -> Some (bytes_ b)) in
          if st <> None then bump "create_read_back";
          let agree = model_agrees x fs ep o calls out && codecs_agree in
